@@ -845,8 +845,74 @@ fn hostile_hex_case(ch: &mut Choices<'_>, st: &mut Stats) -> CaseResult {
     Ok(())
 }
 
+/// Every short / overflowing escape (exhaustive): `\D`, `\DD`, `\DDD` above 255, `\x`, `\xH`, `\xHG`.
+fn short_escape_texts() -> &'static Vec<String> {
+    static L: OnceLock<Vec<String>> = OnceLock::new();
+    L.get_or_init(|| {
+        let mut v = Vec::new();
+        let digits = "0123456789";
+        for a in digits.chars() {
+            v.push(format!("\\{a}"));
+            for b in digits.chars() {
+                v.push(format!("\\{a}{b}"));
+                for c in digits.chars() {
+                    let oct = a < '8' && b < '8' && c < '8';
+                    let val = if oct { (a as u32 - 48) * 64 + (b as u32 - 48) * 8 + (c as u32 - 48) } else { 999 };
+                    if val > 255 {
+                        v.push(format!("\\{a}{b}{c}"));
+                    }
+                }
+            }
+        }
+        v.push("\\x".to_string());
+        for h in "0123456789abcdefABCDEFgxG+- ".chars() {
+            v.push(format!("\\x{h}"));
+            for g in "gG+-xz ".chars() {
+                v.push(format!("\\x{h}{g}"));
+                v.push(format!("\\x{g}{h}"));
+            }
+        }
+        v
+    })
+}
+
+fn short_escape_case(ch: &mut Choices<'_>, st: &mut Stats) -> CaseResult {
+    let l = short_escape_texts();
+    let e = &l[ch.draw(l.len())];
+    st.eval();
+    // the escape followed by the closing quote, by a letter, and by nothing
+    for tail in ["\"", "z\"", " \"", ""] {
+        let body = format!("{e}{tail}");
+        let text = format!("s == \"{body}");
+        // judged by the reference decoder (a two-digit octal followed by an octal digit would be a valid 3-digit one - not generated here)
+        let want = match decode_quoted(&body) {
+            Some((v, used)) if body.chars().skip(used).all(|c| c == ' ') => Some(v),
+            _ => None,
+        };
+        match (parse_json(&text), want) {
+            (Err(p), _) => return Err(Fail::new("parse-panic", p, json!({"filter": text}))),
+            (Ok(Ok(got)), None) => {
+                return Err(Fail::new("malformed-literal-accepted", format!("{text:?} contains a malformed escape but parsed to {got}"), json!({"filter": text})));
+            }
+            (Ok(Err(e2)), Some(v)) => {
+                return Err(Fail::new("valid-literal-rejected", format!("{text:?} denotes {} but was rejected:\n{e2}", show_bytes(&v)), json!({"filter": text})));
+            }
+            (Ok(Ok(got)), Some(v)) => {
+                if got != cmp("s", "Equal", bytes_json(&v, false)) {
+                    return Err(Fail::new("literal-value-mismatch", format!("{text:?}: got {got}"), json!({"filter": text})));
+                }
+            }
+            (Ok(Err(_)), None) => {}
+        }
+    }
+    st.class("short-or-overflowing-escape");
+    st.nontrivial(e);
+    Ok(())
+}
+
 pub fn subs() -> Vec<Sub> {
     vec![
+        Sub { name: "short-escapes", f: Box::new(short_escape_case) },
         Sub { name: "int", f: Box::new(int_case) },
         Sub { name: "bytes", f: Box::new(bytes_case) },
         Sub { name: "escapes", f: Box::new(escape_case) },
@@ -871,6 +937,7 @@ pub fn run(run: &Run) {
     run.enumerate("escapes", 256 * 6, &|i| vec![(i / 6) as u32, (i % 6) as u32], get("escapes"));
     run.enumerate("cidr", 33 + 129, &|i| if i < 33 { vec![0, i as u32] } else { vec![1, (i - 33) as u32] }, get("cidr"));
     run.enumerate("malformed", malformed_list().len() as u64, &|i| vec![i as u32], get("malformed"));
+    run.enumerate("short-escapes", short_escape_texts().len() as u64, &|i| vec![i as u32], get("short-escapes"));
     let q = run.tier.pick(100_000, 2_000_000);
     run.random("int", q, 40, get("int"));
     run.random("bytes", q, 80, get("bytes"));
